@@ -76,8 +76,10 @@ def _interval_dict(d, tz):
     return out
 
 
-def _orders(o, tz):
-    return dict(start=[ts(x, tz) for x in o["start"]], end=[ts(x, tz) for x in o["end"]],
+def _orders(o, tz, zone=None):
+    def z(t):   # the same instants, stamped in another zone than the grid's
+        return t.tz_convert(zone) if (zone and t.tzinfo is not None) else t
+    return dict(start=[z(ts(x, tz)) for x in o["start"]], end=[z(ts(x, tz)) for x in o["end"]],
                 capa=list(o["capa"]), price=list(o["price"]))
 
 
@@ -93,7 +95,9 @@ def build_asset(a, nodes, tz=None):
         if k in DATE_KEYS:
             kw[k] = ts(v, tz)
         elif k == "orders":
-            kw[k] = _orders(v, tz)
+            kw[k] = _orders(v, tz, a.get("orders_zone"))
+        elif k == "orders_zone":
+            pass
         elif k == "orders_df":
             pass
         elif k == "base_asset":
